@@ -304,6 +304,7 @@ theorem exec_noRep (s : Sys) (t : Nat) (op : Op) (hop : ∀ c, op ≠ .setReport
   | toRecords x tr sp =>
     simp only [exec]
     split <;> exact q h rfl
+  | dropLocalSpans x => simp only [exec]; exact q (h.withLspans _) rfl
   | cycle =>
     simp only [exec]
     split
